@@ -1,14 +1,15 @@
 #!/bin/bash
 # usage: eval_benign.sh [names...]   - run EVERY property's quick check against a scratch copy of /repo with a
 # behaviour-preserving (benign) change applied; any VIOLATION / non-zero exit here is a FALSE ALARM of the machinery.
-cd /verif/benign
+V=$(cd "$(dirname "$0")/.." && pwd)
+cd $V/benign
 names=${@:-$(ls -d */ | tr -d /)}
 for n in $names; do
   D=$(mktemp -d /dev/shm/ben-XXXXXX)
   cp -r /repo/synced_collections "$D/" && find "$D" -name __pycache__ -prune -exec rm -rf {} +
-  ( cd "$D" && patch -p1 --no-backup-if-mismatch -s < /verif/benign/$n/patch.diff ) || { echo "$n PATCH-FAILED"; rm -rf "$D"; continue; }
+  ( cd "$D" && patch -p1 --no-backup-if-mismatch -s < $V/benign/$n/patch.diff ) || { echo "$n PATCH-FAILED"; rm -rf "$D"; continue; }
   for p in ${PROPS:-C01 C02 C03 C04 C05 C06 C07 C08 C09 C10 C11 C12 C13 C14 C15 C16 C17 C18 C19}; do
-    out=$(cd /verif && VERIF_REPO="$D" VERIF_NO_EVIDENCE=1 ./check $p quick 2>&1); rc=$?
+    out=$(cd $V && VERIF_REPO="$D" VERIF_NO_EVIDENCE=1 ./check $p quick 2>&1); rc=$?
     v=$(echo "$out" | grep -c '^VIOLATION')
     [ $rc -ne 0 -o $v -ne 0 ] && { echo "$n $p exit=$rc violations=$v"; echo "$out" | grep -v '^KNOWN' | tail -4 | cut -c1-400; } || echo "$n $p ok"
   done
